@@ -86,6 +86,17 @@ def run_into(rep, tier, prop):
   rep.sample(dict(kind='scheduled execution: events recorded at shared accesses, validated by TLC', programs='P2', events=traces[0][:30] if traces else []))
 
 
+def _single_case(st):
+  o = st['out']
+  if o.get('op') == 'Clear':
+    return core.jdump(['clear', o['clearConstants'], o['had']])
+  if o.get('op') == 'SingletonDirect':
+    return core.jdump(['direct', o['key'], o['fresh']])
+  if o.get('op') == 'Call' and st['singles']:
+    return core.jdump(['use', o['sel'], o['status'], sorted(core.jdump(x['key']) for x in st['singles'])])
+  return None
+
+
 def run(tier):
   rep = core.Report('C18', tier)
   rep.rule = ('TLC explores every interleaving (shared-access granularity) of 2 and 3 threads that call configurables in distinct '
@@ -95,8 +106,13 @@ def run(tier):
               'operation with seeded probability; each execution is judged by direct oracles (no failure, reads parse, final text '
               '= sequential text, constructor once, same object) and its event sequence is validated by TLC against GinThreads with '
               'all invariants on; non-trivial = every distinct event sequence')
-  rep.assumptions = ['line granularity is sampled (seeded), not enumerated', 'sequential singleton / clear history is covered by C20']
+  rep.assumptions = ['line granularity is sampled (seeded), not enumerated']
   run_into(rep, tier, 'C18')
+  # the sequential half: every history of singleton uses (through gin.singleton and directly) and clears (GinCore:
+  # C18_SingletonOnce, C20_Pristine); random walks of a model with only these actions, replayed into gin
+  from ginverif.checks import common_core as cc
+  n = 80 if tier == 'quick' else 1500
+  cc.replay_behaviours(rep, 'GinCore_Sim_singleton', num=n, depth=10, nontrivial=_single_case, generate=n * 6, seed_off=37)
   return rep.finish()
 
 
